@@ -4,6 +4,7 @@ import CardVerif.Spec.SidePot
 import Driver.Poker
 import Driver.Evals
 import Driver.Gin
+import Driver.MiscOps
 open Lean CardVerif CardVerif.Codec
 
 namespace CardVerif.Driver
@@ -50,6 +51,11 @@ partial def handle (j : Json) : P Json := do
   | "holdem" => opHoldem j
   | "tiers" => opTiers j
   | "strength" => opStrength j
+  | "hutch" => opHutch j
+  | "canon" => opCanon j
+  | "equity" => opEquity j
+  | "deal" => opDeal j
+  | "gindeal" => opGinDeal j
   | "gin" => opGin j
   | "melds" => opMelds j
   | "layoff" => opLayoff j
